@@ -153,7 +153,7 @@ PredictUnary(o) ==
          LET r == Reseat(c, x, st.blocks, vs, IF Heap(x) /\ sz < x.cap THEN Max(sz, NOf(cfg, c)) ELSE x.cap, x.al, x.al)
          IN  Line(op, c, "-", a, <<>>, "ok", -1, -1, r.evs, With(st, c, r))
     [] op = "at" ->
-         IF a[1] < sz THEN Line(op, c, "-", a, <<>>, "ok", vs[a[1] + 1], -1, <<>>, st)
+         IF a[1] < sz /\ ~(Len(a) >= 2 /\ a[2] # 0) THEN Line(op, c, "-", a, <<>>, "ok", vs[a[1] + 1], -1, <<>>, st)
          ELSE Line(op, c, "-", a, <<>>, "out_of_range", -1, -1, <<>>, st)
     [] op = "dtor" ->
          LET b1 == IF Heap(x) THEN DropBlock(st.blocks, x.st) ELSE st.blocks
@@ -367,6 +367,7 @@ UnaryAll(c) ==
   \cup {O("reserve", c, "-", <<n>>) : n \in IF Profile = "wide" THEN Sizes
                                              ELSE (0..Min(MaxCap, MaxSize + 1)) \cap {0, x.cap - 1, x.cap, x.cap + 1, 2 * x.cap + 1, MaxSize, MaxSize + 1, NOf(cfg, c) + 1}}
   \cup {O("at", c, "-", <<i>>) : i \in Positions(sz)}
+  \cup {O("at", c, "-", <<i, m>>) : i \in {0, 1}, m \in 1..3}        \* indices far beyond any size (wrap / sign-bit arithmetic)
 
 \* enough unary calls to reach every (size, capacity, inline/heap) state of a slot
 UnaryMovers(c) ==
@@ -399,7 +400,9 @@ BinaryAll(d, s) ==
                                        THEN (IF Copyable THEN {"append_copy"} ELSE {}) \cup {"append_move"} ELSE {}}
 
 CtorFromAll(d, s) ==
-  {O(nm, d, s, <<aid>>) : nm \in (IF Copyable THEN {"ctor_copy"} ELSE {}) \cup {"ctor_move"}, aid \in AllocIds}
+  \* aid = 0: the PLAIN copy / move constructor (select_on_container_copy_construction / the source's allocator), whatever the
+  \* allocator kind; aid # 0: the allocator-extended forms
+  {O(nm, d, s, <<aid>>) : nm \in (IF Copyable THEN {"ctor_copy"} ELSE {}) \cup {"ctor_move"}, aid \in AllocIds \cup {0}}
 
 Enabled ==
   CASE Profile \in {"one", "max", "wide"} ->
@@ -491,7 +494,9 @@ Spec == Init /\ [][Next]_<<st, hist, everBig, allocCount>>
 
 View == <<st, everBig, allocCount > 0>>
 
-Bound == /\ \A c \in {"A", "B"} : st[c].p => st[c].cap <= MaxCap /\ Len(st[c].e) <= LenBound
+\* (a container whose allocator came out of the marking select_on_container_copy_construction -- id + 50 -- is a leaf: the
+\* call that made it is emitted and checked, the state is not explored further, or ids would grow without bound)
+Bound == /\ \A c \in {"A", "B"} : st[c].p => st[c].cap <= MaxCap /\ Len(st[c].e) <= LenBound /\ st[c].al < 50
          /\ (Profile = "wide" => Len(hist) <= 1)
 
 (***************************************************************************)
